@@ -308,6 +308,7 @@ package ristretto
 //@   loop 1 invariant #vdistinct forall i, j int :: 0 <= i && i < j && j < len(victims) ==> victims[i].Key != victims[j].Key
 //@   loop 1 invariant #vall forall k uint64 :: old(gcHas(p.evict.keyCosts, k)) && !gcHas(p.evict.keyCosts, k) ==> exists j int :: 0 <= j && j < len(victims) && victims[j].Key == k
 //@   loop 1 invariant #vfresh gcFresh(victims)
+//@   loop 1 invariant #vcounted p.metrics != nil ==> mtot(p.metrics, keyEvict) == old(mtot(p.metrics, keyEvict))+uint64(len(victims)) && mtot(p.metrics, costAdd) == old(mtot(p.metrics, costAdd))
 //@   loop 2 modifies nothing
 //@   loop 2 invariant #init rangeindex == -1 ==> minHits == 9223372036854775807
 //@   loop 2 invariant #min forall j int :: 0 <= j && j <= rangeindex && j < len(sample) ==> minHits <= tinyEst(p.admit, sample[j].key)
@@ -328,6 +329,8 @@ package ristretto
 //@   ensures [C13] #evicted-are-victims forall k uint64 :: old(gcHas(p.evict.keyCosts, k)) && !gcHas(p.evict.keyCosts, k) ==> exists j int :: 0 <= j && j < len(result0) && result0[j].Key == k
 //@   ensures [C04,C09] #victims-distinct forall i, j int :: 0 <= i && i < j && j < len(result0) ==> result0[i].Key != result0[j].Key
 //@   ensures [C13] #others forall k uint64 :: k != key && gcHas(p.evict.keyCosts, k) ==> old(gcHas(p.evict.keyCosts, k)) && p.evict.keyCosts[k] == old(p.evict.keyCosts[k])
+//@   ensures [C17] #evictions-counted p.metrics != nil ==> mtot(p.metrics, keyEvict) == old(mtot(p.metrics, keyEvict))+uint64(len(result0))
+//@   ensures [C17] #admission-counted p.metrics != nil && result1 ==> mtot(p.metrics, costAdd) == old(mtot(p.metrics, costAdd))+uint64(cost)
 
 // ---------------------------------------------------------------- ttl.go: expirationMap (C14)
 //
